@@ -47,7 +47,8 @@ def candidates(world, pre):
             if k in ("P", "F"):
                 out.append({**base, "kind": "wrong_kind", "how": "single"})
             if k == "F":
-                out.append({**base, "kind": "annihilate_vacuum"})
+                out.append({**base, "kind": "annihilate_vacuum", "how": "builtin"})
+                out.append({**base, "kind": "annihilate_vacuum", "how": "custom"})
                 out.append({**base, "kind": "shrink_below_support", "below": 0})
         e = world.env_of(n)
         for e2 in world.envs:
